@@ -840,6 +840,7 @@ type meta struct {
 	ByStack      map[string]int `json:"by_stack"`
 	Closed       int            `json:"closed_observed"`
 	NotClosed    int            `json:"not_closed_observed"`
+	Distinct     int            `json:"distinct_signatures"`
 	Lim          limits         `json:"lim"`
 	TolMs        int            `json:"tol_ms"`
 	MaxPeers     int            `json:"max_stalled_peers"`
@@ -985,7 +986,15 @@ func main() {
 	var tl, al []string
 	tj, _ := os.Create(filepath.Join(*out, "tcases.jsonl"))
 	aj, _ := os.Create(filepath.Join(*out, "acases.jsonl"))
+	sigs := map[string]bool{}
 	for _, t := range tres {
+		if t.ClosedMs >= 0 {
+			sig := t.Sc.Stack + "|" + t.Sc.Phase + "|" + fmt.Sprint(t.Sc.PPv2)
+			for _, e := range t.Events {
+				sig += "," + e.Kind
+			}
+			sigs[sig] = true
+		}
 		if t.Err != "" && t.ClosedMs < 0 && len(t.Events) == 0 {
 			m.TimingErrors = append(m.TimingErrors, t.Sc.Name+": "+t.Err)
 		}
@@ -1014,6 +1023,10 @@ func main() {
 	tj.Close()
 	aj.Close()
 	m.Timing, m.Accept = len(tres), len(ares)
+	for _, a := range ares {
+		sigs[fmt.Sprintf("accept|%s|%s|%d", a.Sc.Stack, a.Sc.PeerOp, a.Sc.N)] = true
+	}
+	m.Distinct = len(sigs)
 	var sb strings.Builder
 	sb.WriteString("From G11 Require Import TimeoutsCheck.\nOpen Scope Z_scope.\n")
 	sb.WriteString("Definition tcases : list tcase :=\n " + listOf("tcase", tl) + ".\n")
